@@ -14,8 +14,8 @@
      type + digest + size), that may or may not implement Exists, may already
      hold content, and may fail at one chosen storage operation ([fa]);
    - time.Now().UTC().Format(RFC3339) is the parameter [now];
-     time.Parse(time.RFC3339, _) succeeding is the recogniser [rfc3339_ok]
-     (mirrors time.parse for that layout step by step). *)
+     the validation of a caller-supplied created value is the recogniser [rfc3339_ok]
+     (mirrors time.parseStrictRFC3339 step by step). *)
 From Oras Require Import Base.Prelude Base.Regex Generated.GC19.
 
 Definition kv := (str * str)%type.
@@ -58,7 +58,7 @@ Definition kind_mt (k : mkind) : str :=
 (* ---------- validateMediaType ---------- *)
 Definition valid_media_type (s : str) : bool := matches mediaTypeRegexp s.
 
-(* ---------- time.Parse(time.RFC3339, s) succeeds ---------- *)
+(* ---------- RFC 3339 timestamps as the Go time package reads them ---------- *)
 Definition is_digit (c : N) : bool := (48 <=? c) && (c <=? 57).
 Definition dval (c : N) : N := c - 48.
 
@@ -97,21 +97,28 @@ Definition lit (c : N) (s : str) : option str :=
 Fixpoint skip_digits (s : str) : str :=
   match s with c :: r => if is_digit c then skip_digits r else s | [] => [] end.
 
-(* optional fractional second: [.,] digit+ *)
-Definition skip_frac (s : str) : str :=
+(* The validation of the created annotation.
+   [strict = true]: time.Time.UnmarshalText, i.e. time.parseStrictRFC3339 (what
+   ensureAnnotationCreated calls since the fix recorded in known_findings.d/C19.json).
+   [strict = false]: time.Parse(time.RFC3339, _), the pre-fix call, which additionally takes
+   a one-digit hour, a comma before the fraction and zone offsets up to 24:60. *)
+
+(* optional fractional second: "." digit+  (lenient: "," too) *)
+Definition skip_frac (strict : bool) (s : str) : str :=
   match s with
-  | p :: d :: r => if ((p =? 46) || (p =? 44)) && is_digit d then skip_digits r else s
+  | p :: d :: r => if ((p =? 46) || (negb strict && (p =? 44))) && is_digit d then skip_digits r else s
   | _ => s
   end.
 
 (* Z07:00 and nothing after it *)
-Definition tz_ok (s : str) : bool :=
+Definition tz_ok (strict : bool) (s : str) : bool :=
   match s with
   | 90 :: r => match r with [] => true | _ => false end
   | sg :: h1 :: h2 :: col :: m1 :: m2 :: r =>
     (col =? 58) && is_digit h1 && is_digit h2 && is_digit m1 && is_digit m2 &&
     ((sg =? 43) || (sg =? 45)) &&
-    (dval h1 * 10 + dval h2 <=? 24) && (dval m1 * 10 + dval m2 <=? 60) &&
+    (dval h1 * 10 + dval h2 <=? (if strict then 23 else 24)) &&
+    (dval m1 * 10 + dval m2 <=? (if strict then 59 else 60)) &&
     match r with [] => true | _ => false end
   | _ => false
   end.
@@ -123,21 +130,24 @@ Definition days_in (m y : N) : N :=
   if m =? 2 then (if is_leap y then 29 else 28)
   else if (m =? 4) || (m =? 6) || (m =? 9) || (m =? 11) then 30 else 31.
 
-Definition rfc3339_ok (s : str) : bool :=
+Definition rfc3339_gen (strict : bool) (s : str) : bool :=
   match num4 s with None => false | Some (year, s) =>
   match lit 45 s with None => false | Some s =>
   match num2 s with None => false | Some (month, s) =>
   match lit 45 s with None => false | Some s =>
   match num2 s with None => false | Some (day, s) =>
   match lit 84 s with None => false | Some s =>
-  match num12 s with None => false | Some (hour, s) =>
+  match (if strict then num2 s else num12 s) with None => false | Some (hour, s) =>
   match lit 58 s with None => false | Some s =>
   match num2 s with None => false | Some (minute, s) =>
   match lit 58 s with None => false | Some s =>
   match num2 s with None => false | Some (sec, s) =>
     (1 <=? month) && (month <=? 12) && (hour <? 24) && (minute <? 60) && (sec <? 60) &&
-    (1 <=? day) && (day <=? days_in month year) && tz_ok (skip_frac s)
+    (1 <=? day) && (day <=? days_in month year) && tz_ok strict (skip_frac strict s)
   end end end end end end end end end end end.
+
+Definition rfc3339_ok : str -> bool := rfc3339_gen true.
+Definition rfc3339_ok_prefix : str -> bool := rfc3339_gen false.
 
 (* ---------- annotations ---------- *)
 Fixpoint ann_get (k : str) (l : list kv) : option str :=
